@@ -1,3 +1,5 @@
+//go:build verif_all || verif_c20
+
 package binutils
 
 // Injected by the /verif overlay (never committed): seams for the C20 scenarios.
